@@ -65,6 +65,16 @@ func pathVerdict(text string, keys []string) string {
 		p += i + len(k)
 	}
 	if ordered {
+		// the keys appear in order; when the error prints exactly one path list, that list must be the path, not a
+		// longer one that merely contains it (a path that accumulates entries of other runs names another node)
+		if strings.Count(text, "node path: [") == 1 {
+			rest := text[strings.Index(text, "node path: [")+len("node path: ["):]
+			if j := strings.Index(rest, "]"); j >= 0 {
+				if printed := strings.Split(rest[:j], ", "); len(printed) > len(keys) {
+					return "longer-than-the-path"
+				}
+			}
+		}
 		return ""
 	}
 	present := 0
@@ -291,7 +301,14 @@ func runCase(c Case) (fs []finding, execs int64, outcome string, err error) {
 			opts = append(opts, compose.WithRuntimeMaxSteps(c.MaxSteps))
 		}
 		o := runParadigm(ctx, r, c.Paradigm, caseInput(), opts...)
-		return judgeSteps(c, o), 0, outcomeOf(o), nil
+		fs := judgeSteps(c, o)
+		// the error is made by the framework itself: a second failing run must report its own, equally correct
+		// error (not one that carries traces of the first run)
+		o2 := runParadigm(ctx, r, c.Paradigm, caseInput(), opts...)
+		for _, f := range judgeSteps(c, o2) {
+			fs = append(fs, finding{"second-run:" + f.Sig, "the same run repeated on the same runnable: " + f.Msg})
+		}
+		return fs, 0, outcomeOf(o), nil
 
 	case "cancel-pre", "cancel-in":
 		cctx, cancel := context.WithCancel(ctx)
